@@ -503,3 +503,122 @@ func (p *Program) isSyncSend(fn *ssa.Function) bool {
 	}
 	return false
 }
+
+// R-COPY-DEEP (C03, C13, C14): CopyForm returns a tree that shares no Form node with its argument.
+func init() {
+	register(&Rule{Name: "R-COPY-DEEP", Min: 9,
+		Doc: "in CopyForm (and CopyType) every child of interface type Form/SessionType handed to the constructor of the copy is itself the result of a recursive copy, never a field of the original",
+		Run: runCopyDeep})
+}
+
+func runCopyDeep(p *Program, r *RuleResult) {
+	for _, spec := range []struct {
+		pkg, fn string
+		isChild func(t types.Type) bool
+	}{
+		{processPkg, "CopyForm", func(t types.Type) bool { return isFormType(t) || isBranchSlice(t) }},
+		{typesPkg, "CopyType", func(t types.Type) bool { return isSessionTypeType(t) || isOptionSlice(t) }},
+	} {
+		fn := p.Func(spec.pkg, spec.fn)
+		name := fnName(fn)
+		n := 0
+		for _, c := range p.callsIn(fn) {
+			call, ok := c.(*ssa.Call)
+			if !ok {
+				continue
+			}
+			sc := call.Common().StaticCallee()
+			if sc == nil || sc == fn || !p.isFirstParty(sc) || sc.Signature.Recv() != nil {
+				continue
+			}
+			// constructor of a copy: returns a pointer to a struct implementing the copied interface
+			resT := sc.Signature.Results()
+			if resT.Len() != 1 || namedOf(resT.At(0).Type()) == nil || !isPtr(resT.At(0).Type()) {
+				continue
+			}
+			for i, a := range call.Common().Args {
+				if !spec.isChild(a.Type()) {
+					continue
+				}
+				n++
+				construct := fmt.Sprintf("%s-arg%d", sc.Name(), i+1)
+				if isRecursiveCopy(a, fn, map[ssa.Value]bool{}) {
+					r.add(name, construct, Holds, p.instrPos(call), "")
+				} else {
+					r.add(name, construct, Violated, p.instrPos(call),
+						fmt.Sprintf("the copy built by %s receives child %s of the original instead of a copy of it: the subtree is shared by the definition and all its instances, so one instance's in-place substitutions are seen by the others", sc.Name(), describeVal(a)))
+				}
+			}
+		}
+		if n == 0 {
+			r.add(name, "copy-constructors", Undecided, p.pos(fn.Pos()), "no constructor call with child arguments found")
+		}
+	}
+}
+
+// isRecursiveCopy: v is a result of `copyFn` (possibly asserted/converted), or a slice
+// all of whose element stores are such results.
+func isRecursiveCopy(v ssa.Value, copyFn *ssa.Function, seen map[ssa.Value]bool) bool {
+	if seen[v] {
+		return true
+	}
+	seen[v] = true
+	switch x := v.(type) {
+	case *ssa.Call:
+		return x.Common().StaticCallee() == copyFn
+	case *ssa.TypeAssert:
+		return isRecursiveCopy(x.X, copyFn, seen)
+	case *ssa.ChangeInterface:
+		return isRecursiveCopy(x.X, copyFn, seen)
+	case *ssa.MakeInterface:
+		return isRecursiveCopy(x.X, copyFn, seen)
+	case *ssa.Extract:
+		return isRecursiveCopy(x.Tuple, copyFn, seen)
+	case *ssa.Phi:
+		for _, e := range x.Edges {
+			if !isRecursiveCopy(e, copyFn, seen) {
+				return false
+			}
+		}
+		return true
+	case *ssa.UnOp:
+		if o := origin(x); o != ssa.Value(x) {
+			return isRecursiveCopy(o, copyFn, seen)
+		}
+		return false
+	case *ssa.MakeSlice:
+		// every element store into this slice must be a copy
+		ok, any := true, false
+		for _, u := range *x.Referrers() {
+			ia, isIA := u.(*ssa.IndexAddr)
+			if !isIA {
+				continue
+			}
+			for _, w := range *ia.Referrers() {
+				switch st := w.(type) {
+				case *ssa.Store:
+					if st.Addr == ssa.Value(ia) {
+						any = true
+						if !isRecursiveCopy(st.Val, copyFn, seen) {
+							ok = false
+						}
+					}
+				case *ssa.FieldAddr:
+					// element struct fields (Option.SessionType)
+					for _, w2 := range *st.Referrers() {
+						if s2, isSt := w2.(*ssa.Store); isSt && s2.Addr == ssa.Value(st) {
+							if isSessionTypeType(s2.Val.Type()) || isFormType(s2.Val.Type()) {
+								any = true
+								if !isRecursiveCopy(s2.Val, copyFn, seen) {
+									ok = false
+								}
+							}
+						}
+					}
+				}
+			}
+		}
+		return ok && any
+	}
+	return false
+}
